@@ -462,3 +462,26 @@ def repo_env() -> dict[str, str]:
     e[GUARD] = "1"
     e.setdefault("PYTHONHASHSEED", "0")
     return e
+
+
+# --------------------------------------------------------------------------- parallel map
+
+
+def _pmap_worker(args):
+    func, chunk = args
+    return [func(x) for x in chunk]
+
+
+def pmap(func, items: Sequence[Any], procs: int = NCPU, chunk: int = 200) -> list[Any]:
+    """Order-preserving parallel map over forked worker processes (func must be a module-level
+    function).  Falls back to a plain loop for small inputs."""
+    items = list(items)
+    if len(items) < 2 * chunk or procs <= 1:
+        return [func(x) for x in items]
+    import multiprocessing as mp
+
+    chunks = [items[i : i + chunk] for i in range(0, len(items), chunk)]
+    ctx = mp.get_context("fork")
+    with ctx.Pool(procs) as pool:
+        parts = pool.map(_pmap_worker, [(func, c) for c in chunks])
+    return [y for part in parts for y in part]
